@@ -62,6 +62,12 @@ type eqCh struct {
 	N int
 }
 
+// a field of interface type: what it holds is only known at run time
+type eqAny struct {
+	Name string
+	Tags any
+}
+
 // three different struct types that all print as "main.Spec" (declared in
 // three function scopes): whatever is remembered per type must not be
 // remembered per type NAME
@@ -106,7 +112,7 @@ var eqTypes = map[int]reflect.Type{
 	160: reflect.TypeOf(eqS1{}), 161: reflect.TypeOf(eqS2{}), 162: reflect.TypeOf(eqS3{}), 163: reflect.TypeOf(eqP1{}),
 	164: reflect.TypeOf(eqN{}), 165: reflect.TypeOf(eqWithEmb{}), 166: reflect.TypeOf(struct{}{}), 167: reflect.TypeOf(eqP2{}),
 	168: reflect.TypeOf(EqEmb{}), 169: reflect.TypeOf(eqCh{}),
-	170: eqLocal1(), 171: eqLocal2(), 172: eqLocal3(),
+	170: eqLocal1(), 171: eqLocal2(), 172: eqLocal3(), 173: reflect.TypeOf(eqAny{}),
 
 	180: reflect.TypeOf((func(int) int)(nil)), 181: reflect.TypeOf((func(string) int)(nil)), 182: reflect.TypeOf((func())(nil)),
 	190: reflect.TypeOf((chan int)(nil)), 191: reflect.TypeOf((chan string)(nil)),
@@ -173,6 +179,9 @@ func eqNodeType(n *Node) reflect.Type {
 
 // eqBuildAs builds the value a node describes as a value of type t.
 func eqBuildAs(n *Node, t reflect.Type) reflect.Value {
+	if t.Kind() == reflect.Interface {
+		return eqBuildAs(n, eqNodeType(n)) // the dynamic type is the node's own
+	}
 	switch n.T {
 	case "str", "bool", "int", "float":
 		v := reflect.ValueOf(n.Build())
@@ -321,6 +330,9 @@ func (g *eqGen) prim(t reflect.Type) *Node {
 
 func (g *eqGen) value(t reflect.Type) *Node {
 	switch t.Kind() {
+	case reflect.Interface:
+		// an interface-typed field: holds a value of one of a few concrete types
+		return g.value(eqTypes[[]int{0, 30, 101, 140, 100, 160}[g.r.Intn(6)]])
 	case reflect.Ptr:
 		// nil pointers: never below a map (map iteration order would make a
 		// panic-or-error outcome order dependent)
@@ -1172,7 +1184,7 @@ func genEqual(ctx *Ctx, emit func(any, string)) {
 	// values at the same position: only "equal or not" matters)
 	{
 		var samples []*Node
-		for _, tag := range []int{0, 1, 21, 30, 31, 100, 102, 103, 104, 120, 123, 140, 142, 144, 160, 161, 163, 164, 166, 167, 169, 170, 171, 172, 180, 182, 190} {
+		for _, tag := range []int{0, 1, 21, 30, 31, 100, 102, 103, 104, 120, 123, 140, 142, 144, 160, 161, 163, 164, 166, 167, 169, 170, 171, 172, 173, 180, 182, 190} {
 			g := &eqGen{r: &Rng{s: uint64(tag*131 + 5)}}
 			samples = append(samples, g.value(eqTypes[tag]))
 		}
@@ -1214,6 +1226,46 @@ func genEqual(ctx *Ctx, emit func(any, string)) {
 				}
 			}
 		}
+	}
+	// length is no limit: a slice of 1500 ints and a map of 150 entries, equal and
+	// differing in one late element; a Stack of 1300 leaves differing in the last
+	{
+		bigSlice := func(at int) *Node {
+			n := &Node{T: "slice", Ty: 100, Cap: 1500}
+			for i := 0; i < 1500; i++ {
+				v := int64(i % 23)
+				if i == at {
+					v = 99
+				}
+				n.Els = append(n.Els, &Node{T: "int", I: v})
+			}
+			return n
+		}
+		bigMap := func(at int) *Node {
+			n := &Node{T: "map", Ty: 140}
+			for i := 0; i < 150; i++ {
+				v := int64(i)
+				if i == at {
+					v = -1
+				}
+				n.Els = append(n.Els, &Node{T: "kv", Els: []*Node{{T: "str", S: fmt.Sprintf("key%03d", i)}, {T: "int", I: v}}})
+			}
+			return n
+		}
+		bigStack := func(last int64) *Node {
+			n := &Node{T: "stack", Kind: "AND"}
+			for i := 0; i < 1300; i++ {
+				n.Els = append(n.Els, &Node{T: "int", I: int64(i % 7)})
+			}
+			n.Els[1299].I = last
+			return n
+		}
+		emit(EqInput{A: eqWrap(bigSlice(-1)), B: eqWrap(bigSlice(-1)), Mut: "copy"}, "exhaustive")
+		emit(EqInput{A: eqWrap(bigSlice(-1)), B: eqWrap(bigSlice(1400)), Mut: "late-element"}, "exhaustive")
+		emit(EqInput{A: eqWrap(bigMap(-1)), B: eqWrap(bigMap(-1)), Mut: "copy"}, "exhaustive")
+		emit(EqInput{A: eqWrap(bigMap(-1)), B: eqWrap(bigMap(140)), Mut: "late-entry"}, "exhaustive")
+		emit(EqInput{A: bigStack(1), B: bigStack(1), Mut: "copy"}, "exhaustive")
+		emit(EqInput{A: bigStack(1), B: bigStack(2), Mut: "last-element"}, "exhaustive")
 	}
 	// depth is no limit: chains of 300 / 520 / 700 nested Stacks (every fourth hop
 	// through a Condition), equal and differing in the innermost leaf
